@@ -16,12 +16,16 @@
 (*          or frustrated (rad < 0)                                         *)
 (* Velocity rescaling along d:  v' = v + alpha d / m,                        *)
 (*   alpha = (-(v.d) + sgn(v.d) sqrt(rad)) / (d.d/m)   (smaller root).        *)
+(* Detect = TRUE: the permutation goes through _detect_crossings first: a      *)
+(* trajectory in hold-off is not examined (no swap applied this step), but   *)
+(* if its active state has a crossing partner different from the previous    *)
+(* state the hold-off is cleared (probe reset, as in NEXMD).                  *)
 (* SignZero: value of sgn(0): 0 as shipped (hop accepted with alpha = 0, no  *)
 (* energy exchange), +1 design.                                             *)
 (***************************************************************************)
 EXTENDS Integers, Sequences, FiniteSets, TLC
 
-CONSTANTS NTraj, NStates, Steps, Decohere, SignZero, SwapScope, Rich   \* Rich: full input set for trajectory 1 (use with Steps = 1)   \* SwapScope "own" (as coded) | "all" (mutant: swap applied to every trajectory)
+CONSTANTS NTraj, NStates, Steps, Decohere, SignZero, SwapScope, Detect, Rich   \* Rich: full input set for trajectory 1 (use with Steps = 1)   \* SwapScope "own" (as coded) | "all" (mutant: swap applied to every trajectory)
 
 Traj == 1..NTraj
 St == 1..NStates
@@ -56,14 +60,17 @@ Init ==
 \* returns [tr |-> new record, ev |-> sequence of log events]
 One(t, old, in, swapIn) ==
     LET held   == old.hold > 0
-        perm   == swapIn                                  \* permutation applied to THIS trajectory
+        partner == swapIn[old.active]
+        reset  == Detect /\ held /\ old.prev # 0 /\ partner # old.active /\ partner # old.prev
+        hold0  == IF reset THEN 0 ELSE old.hold
+        perm   == IF Detect /\ held THEN Ident ELSE swapIn      \* permutation applied to THIS trajectory
         \* new_coeff[p(i)] = old_coeff[i]
         lab1   == [s \in St |-> old.lab[CHOOSE i \in St : perm[i] = s]]
         a1     == perm[old.active]
         swapped == a1 # old.active
         ev1    == IF swapped THEN <<[traj |-> t, from |-> old.active, to |-> a1, ok |-> TRUE, why |-> "trivial"]>> ELSE << >>
-        skip   == held \/ swapped
-        hold1  == IF swapped THEN 2 ELSE old.hold
+        skip   == hold0 > 0 \/ swapped
+        hold1  == IF swapped THEN 2 ELSE hold0
         prev1  == IF swapped THEN old.active ELSE old.prev
         tgt    == IF skip \/ in.hop = 0 \/ in.hop = a1 \/ old.den # 1 \/ old.hops > 0 THEN 0 ELSE in.hop
         d      == in.kin.d
@@ -81,7 +88,7 @@ One(t, old, in, swapIn) ==
                   ELSE <<[traj |-> t, from |-> a1, to |-> tgt, ok |-> accept, why |-> IF accept THEN "hop" ELSE "frustrated"]>>
     IN [tr |-> [active |-> a2, lab |-> lab2, hold |-> IF accept THEN 2 ELSE hold1, prev |-> prev1, vnum |-> vnum2, den |-> den2,
                 pot |-> old.pot - Energies[old.active] + Energies[a2], hops |-> old.hops + (IF accept THEN 1 ELSE 0)],
-        ev |-> ev1 \o ev2, tgt |-> tgt, accept |-> accept, b |-> b, D |-> D, c |-> c, r |-> r, m |-> m]
+        ev |-> ev1 \o ev2, tgt |-> tgt, accept |-> accept, b |-> b, D |-> D, c |-> c, r |-> r, m |-> m, reset |-> reset, perm |-> perm]
 
 RECURSIVE Cat(_, _)
 Cat(f, k) == IF k = 0 THEN << >> ELSE Cat(f, k - 1) \o f[k]
@@ -95,7 +102,7 @@ Step ==
                 res == [t \in Traj |-> One(t, ticked[t], in[t], IF SwapScope = "own" THEN in[t].swap ELSE anySwap)]
             IN /\ tr' = [t \in Traj |-> res[t].tr]
                /\ log' = log \o Cat([t \in Traj |-> res[t].ev], NTraj)
-               /\ hist' = Append(hist, [pre |-> tr, in |-> in, out |-> tr', info |-> [t \in Traj |-> [tgt |-> res[t].tgt, accept |-> res[t].accept, b |-> res[t].b, D |-> res[t].D, c |-> res[t].c, r |-> res[t].r, m |-> res[t].m]]])
+               /\ hist' = Append(hist, [pre |-> tr, in |-> in, out |-> tr', info |-> [t \in Traj |-> [tgt |-> res[t].tgt, accept |-> res[t].accept, b |-> res[t].b, D |-> res[t].D, c |-> res[t].c, r |-> res[t].r, m |-> res[t].m, reset |-> res[t].reset, perm |-> res[t].perm]]])
     /\ n' = n + 1
 
 Next == Step
@@ -117,7 +124,7 @@ FrustratedNoChange ==
     [][NewStep => \A t \in Traj :
           (L1.info[t].tgt # 0 /\ ~L1.info[t].accept) =>
               /\ tr'[t].vnum = tr[t].vnum /\ tr'[t].den = tr[t].den
-              /\ tr'[t].active = L1.in[t].swap[tr[t].active]]_vars
+              /\ tr'[t].active = L1.info[t].perm[tr[t].active]]_vars
 \* (c) accepted hop: the velocity changes along d only (by construction of vnum') and the kinetic energy changes
 \*     by exactly -dE:   |V'|^2 - D^2 |v|^2 = -(b^2 - r^2) D   (integers; dE' = (b^2 - r^2) m / (2 D))
 EnergyExact ==
@@ -132,7 +139,7 @@ SmallerRoot ==
           L1.info[t].accept => LET i == L1.info[t] IN Abs(i.c) <= Abs(-i.b - Sgn(i.b) * i.r)]_vars
 \* hold-off: no stochastic hop in the two steps after an accepted hop / trivial crossing of the active state
 HoldoffBlocksHop ==
-    [][NewStep => \A t \in Traj : tr[t].hold = 2 => L1.info[t].tgt = 0]_vars
+    [][NewStep => \A t \in Traj : (tr[t].hold = 2 /\ ~L1.info[t].reset) => L1.info[t].tgt = 0]_vars
 \* (f) nothing done to one trajectory affects another: a trajectory whose own inputs are "nothing happens"
 \*     keeps everything but its hold-off counter
 Isolation ==
